@@ -92,11 +92,15 @@ def model_hash(x):
     return builtins.hash(x)
 
 
-class HashOf:
-    """hash(s) for symbolic s: equal contents give equal hashes; nothing else is known"""
+class HashOf(int):
+    """hash(s) for symbolic s: equal contents give equal hashes; nothing else is known.  It is an int (value 0) so
+    that real dicts / sets accept objects hashing to it: all symbolic strings collide, and membership is then decided
+    by the objects' own == (a symbolic Boolean, i.e. an engine fork) - exactly a hash table's semantics."""
 
-    def __init__(self, s):
-        self.s = s
+    def __new__(cls, s):
+        o = int.__new__(cls, 0)
+        o.s = s
+        return o
 
     def __eq__(self, o):
         if isinstance(o, HashOf):
@@ -185,6 +189,8 @@ def call(f, *a, **k):
         f = getattr(f.__self__.resolve(), f.__name__)
     if isinstance(f, _LRU_TYPE):
         return _lru_call(f, a, k)
+    if isinstance(f, types.MethodType) and isinstance(f.__func__, _LRU_TYPE):
+        return _lru_call(f.__func__, (f.__self__,) + tuple(a), k)
     if f is builtins.range and RANGE_CAP["n"] and len(a) == 1 and isinstance(a[0], int) and a[0] > RANGE_CAP["n"] and a[0] == RANGE_CAP["of"]:
         return builtins.range(RANGE_CAP["n"])
     if f is builtins.int:
@@ -505,15 +511,30 @@ def fstring(parts):
 
 
 # ---------------------------------------------------------------- subscripts / containment / identity
+def _concretize_small(x):
+    """a symbolic integer with a small interval is forked over its values (slice bounds, indices)"""
+    if not isinstance(x, SymInt):
+        return x
+    b = ival(x.e)  # noqa: F405
+    if b is None or b[1] - b[0] > 24:
+        raise Unmodelled("symbolic slice bound / index with a large or unknown range")
+    vals = list(range(b[0], b[1] + 1))
+    return vals[ctx.choose_n([x.e == v for v in vals])]
+
+
 def getitem(obj, key):
     if isinstance(obj, Merged):
         return obj[key]
+    if isinstance(key, slice) and any(isinstance(x, SymInt) for x in (key.start, key.stop, key.step)):
+        key = slice(_concretize_small(key.start), _concretize_small(key.stop), _concretize_small(key.step))
     if isinstance(key, Merged):
         key = key.resolve()
     if isinstance(obj, StrBase):
         if type(obj).__getitem__ is not StrBase.__getitem__:
             return obj.__getitem__(key)
         obj = obj._s
+    if isinstance(key, StrBase) and isinstance(key._s, SymStr) and isinstance(obj, dict) and any(not isinstance(k, str) for k in obj):
+        return obj[key]  # value object as key of a real hash table (see contains)
     if isinstance(key, StrBase):
         key = key._s
     if isinstance(obj, SymStr):
@@ -664,6 +685,9 @@ def _dict_lookup_tuple(obj, key, default=KeyError):
 def contains(container, item):
     if isinstance(container, StrBase):
         container = container._s
+    if isinstance(item, StrBase) and isinstance(item._s, SymStr) and isinstance(container, (dict, set, frozenset)):
+        # a value object as key of a real hash table: constant symbolic hash, membership decided by its own ==
+        return item in container
     if isinstance(item, StrBase):
         item = item._s
     if is_sym(item) or is_sym(container) or (isinstance(item, tuple) and deep_sym(item)):
@@ -772,7 +796,7 @@ def setitem_(obj, key, value):
     if ctx.undo is not None:
         ctx.undo.note_container(obj)
     if is_sym(key) or (isinstance(key, tuple) and deep_sym(key)):
-        if isinstance(obj, dict):
+        if isinstance(obj, dict) and not (isinstance(key, StrBase) and type(key).__hash__ is not StrBase.__hash__ or isinstance(key, StrBase)):
             raise Unmodelled("dict store with symbolic key")
     obj[key] = value
 
